@@ -49,16 +49,26 @@ inductive ParamDefect where
   | badNames     -- a field name that is not UTF-8: Arrow raises `UnicodeDecodeError` when the names are materialised
 deriving Repr, DecidableEq
 
+/-- what `_deserialize_params` raises for a well-formed request whose *value* cannot be converted back (an enum member
+    name that does not exist, a nested-dataclass blob that does not decode, …) -/
+inductive DeserExc where
+  | keyError | valueError | overflowError | typeError | arrowInvalid | ipcError | osError | stopIteration | other
+deriving Repr, DecidableEq
+
 inductive Body where
   | valid                      -- well-formed IPC, well-formed metadata, conforming parameters / input batch
   | parseFail (e : ParseExc)   -- corrupted / truncated / empty / zero-batch: reading the bytes raises `e`
   | badMeta (m : MetaDefect)   -- well-formed IPC, wrong request metadata
   | badParams (d : ParamDefect) -- well-formed IPC and metadata; columns do not fit the parameters / the input schema
   | cancel                     -- valid body carrying `vgi_rpc.cancel` (meaningful on /exchange only)
+  | badValue (e : DeserExc)    -- well-formed request, conforming columns; a parameter value fails conversion with `e`
 deriving Repr, DecidableEq
 
 inductive CType where
-  | correct | wrong | missing
+  | correct
+  | wrong          -- a different media type that does not begin with the Arrow stream type
+  | missing
+  | wrongExtends   -- a different media type that has the Arrow stream type as a proper prefix (`…stream2`, `…stream+json`)
 deriving Repr, DecidableEq
 
 /-- `Content-Encoding` of the request -/
@@ -113,6 +123,7 @@ deriving Repr, DecidableEq
 /-- a comparison operator found in a guard -/
 inductive CmpOp where
   | eq | ne | unknown
+  | notPrefix      -- `not value.startswith(expected)`
 deriving Repr, DecidableEq
 
 /-- checks made by `_resolve_method` -/
@@ -139,6 +150,10 @@ structure Tables where
   initParse : ParseExc → Option Nat
   initVal : ValExc → Option Nat
   exchangeParse : ParseExc → Option Nat
+  /-- effective status for an exception raised by `_deserialize_params`: through the handler around that call if it
+      catches the class (re-raised as `TypeError`), else through the request-reading `try` itself -/
+  unaryDeser : DeserExc → Option Nat
+  initDeser : DeserExc → Option Nat
   /-- `_read_request` itself turns a validation failure of the request batch into `RpcError("ProtocolError")` -/
   readWrapsBatchValidation : Bool
   /-- `_read_request` turns any failure while materialising names / values into `RpcError("ProtocolError")` -/
